@@ -47,6 +47,14 @@ impl TypeSpace {
             return None;
         };
 
+        if syn::parse_str::<syn::TypePath>(&path).is_err() {
+            warn!(
+                "{} contains an invalid path",
+                serde_json::to_string_pretty(&schema).unwrap(),
+            );
+            return None;
+        }
+
         let crate_ident = crate_name.replace('-', "_");
         let path_sep = path.find("::")?;
         if crate_ident != path[..path_sep] {
